@@ -423,3 +423,37 @@ pub fn rec_files(
     }
     out
 }
+
+/// Files with many (4..=10) small records: record indices, line numbers and byte offsets beyond what
+/// the exhaustive short families reach (positions of later records, defects far from the start)
+pub fn long_files(format: Format, with_defects: bool) -> Vec<RecFile> {
+    let mut out = vec![];
+    let nshapes = 3;
+    for &n in &[4usize, 5, 7, 10] {
+        for rot in 0..nshapes {
+            let shapes: Vec<usize> = (0..n).map(|i| (i + rot) % nshapes).collect();
+            for &crlf in &[false, true] {
+                for &final_term in &[true, false] {
+                    for &trail_blank in &[0usize, 2] {
+                        out.push(RecFile { format, shapes: shapes.clone(), crlf, final_term, lead_blank: if format == Format::Fasta && rot == 1 { 2 } else { 0 }, trail_blank, defect: None });
+                    }
+                    if with_defects && format == Format::Fastq {
+                        for &d in FASTQ_DEFECTS {
+                            for &k in &[n - 1, n / 2, 3] {
+                                let is_trunc = matches!(d, Defect::TruncLine(_) | Defect::TruncAfter(_));
+                                if is_trunc && (k + 1 != n || !final_term) {
+                                    continue;
+                                }
+                                if d == Defect::QualShorter && FASTQ_SHAPES[shapes[k]].lines[0].is_empty() {
+                                    continue;
+                                }
+                                out.push(RecFile { format, shapes: shapes.clone(), crlf, final_term, lead_blank: 0, trail_blank: 0, defect: Some((k, d)) });
+                            }
+                        }
+                    }
+                }
+            }
+        }
+    }
+    out
+}
